@@ -91,9 +91,23 @@ class Config:
                 "generated": self.generated}
 
 
-def from_yaml_text(text, name=None):
-    """Our own reading of a scenario document in the documented format."""
-    doc = yaml.safe_load(text)
+_FAST_CHECKED = [0]
+
+
+def from_yaml_text(text, name=None, fast=False):
+    """Our own reading of a scenario document in the documented format.
+
+    fast: parse with libyaml's scanner (same resolver and constructor as
+    yaml.safe_load); only used for documents the harness generated itself,
+    and every 16th such document is parsed both ways and compared."""
+    if fast and hasattr(yaml, "CSafeLoader"):
+        doc = yaml.load(text, Loader=yaml.CSafeLoader)
+        _FAST_CHECKED[0] += 1
+        if _FAST_CHECKED[0] % 16 == 1 and doc != yaml.safe_load(text):
+            raise RuntimeError("libyaml and PyYAML disagree on a generated "
+                               "document (harness self-check)")
+    else:
+        doc = yaml.safe_load(text)
     c = Config()
     c.name = name
     c.subnets = [1] + [int(s) for s in doc["subnets"]]
